@@ -64,11 +64,21 @@ type respSpec struct {
 	ct, loc, etag, clen, lmod *string
 	dav                       []string
 	body                      string
+	// deliv: the form in which the body reaches the client (see body.go); the model does
+	// not look at it: the outcome must not depend on it
+	deliv int
 }
 
+// caseIn is one client call.  hist: the calls made before it on the SAME client values
+// (inputs only; the step is judged by the model on its own inputs); endpoint: the URL the
+// clients were created with ("" = defaultEndpoint); ovl: the call ran while other calls
+// on the same client value were in flight.
 type caseIn struct {
 	method, path string
 	r            respSpec
+	hist         []caseIn
+	endpoint     string
+	ovl          bool
 }
 
 func sp(s string) *string { return &s }
@@ -88,41 +98,67 @@ func optStr(x hx.Sx) *string {
 	return &s
 }
 
-func inputSx(c caseIn) string {
-	var r string
-	if c.r.terr {
-		r = "(terr)"
-	} else {
-		var dav []string
-		for _, v := range c.r.dav {
-			dav = append(dav, hx.S(v))
-		}
-		r = hx.L("r", hx.I(int64(c.r.status)), hx.B(c.r.reqset), optAtom(c.r.ct), hx.L(dav...),
-			optAtom(c.r.loc), optAtom(c.r.etag), optAtom(c.r.clen), optAtom(c.r.lmod), hx.S(c.r.body))
+func respSx(rs *respSpec) string {
+	if rs.terr {
+		return "(terr)"
 	}
-	return hx.L("c", c.method, hx.S(c.path), r)
+	var dav []string
+	for _, v := range rs.dav {
+		dav = append(dav, hx.S(v))
+	}
+	return hx.L("r", hx.I(int64(rs.status)), hx.B(rs.reqset), optAtom(rs.ct), hx.L(dav...),
+		optAtom(rs.loc), optAtom(rs.etag), optAtom(rs.clen), optAtom(rs.lmod), hx.S(rs.body), hx.I(int64(rs.deliv)))
+}
+
+func inputSx(c caseIn) string {
+	items := []string{"c", c.method, hx.S(c.path), respSx(&c.r)}
+	if c.ovl {
+		items = append(items, "(ovl)")
+	} else if len(c.hist) > 0 || c.endpoint != "" {
+		h := []string{"hist", hx.S(c.endpoint)}
+		for _, st := range c.hist {
+			h = append(h, hx.L(st.method, hx.S(st.path), respSx(&st.r)))
+		}
+		items = append(items, hx.L(h...))
+	}
+	return hx.L(items...)
+}
+
+func parseResp(r hx.Sx) respSpec {
+	var rs respSpec
+	if r.Head() == "terr" {
+		rs.terr = true
+		return rs
+	}
+	f := r.Args()
+	rs.status = int(f[0].Int())
+	rs.reqset = f[1].Bool()
+	rs.ct = optStr(f[2])
+	for _, v := range f[3].List {
+		rs.dav = append(rs.dav, v.Str())
+	}
+	rs.loc = optStr(f[4])
+	rs.etag = optStr(f[5])
+	rs.clen = optStr(f[6])
+	rs.lmod = optStr(f[7])
+	rs.body = f[8].Str()
+	if len(f) > 9 {
+		rs.deliv = int(f[9].Int())
+	}
+	return rs
 }
 
 func parseInput(x hx.Sx) caseIn {
 	a := x.Args()
-	c := caseIn{method: a[0].Atom, path: a[1].Str()}
-	r := a[2]
-	if r.Head() == "terr" {
-		c.r.terr = true
-		return c
+	c := caseIn{method: a[0].Atom, path: a[1].Str(), r: parseResp(a[2])}
+	if len(a) > 3 && a[3].Head() == "hist" {
+		h := a[3].Args()
+		c.endpoint = h[0].Str()
+		for _, st := range h[1:] {
+			c.hist = append(c.hist, caseIn{method: st.List[0].Atom, path: st.List[1].Str(), r: parseResp(st.List[2])})
+		}
 	}
-	f := r.Args()
-	c.r.status = int(f[0].Int())
-	c.r.reqset = f[1].Bool()
-	c.r.ct = optStr(f[2])
-	for _, v := range f[3].List {
-		c.r.dav = append(c.r.dav, v.Str())
-	}
-	c.r.loc = optStr(f[4])
-	c.r.etag = optStr(f[5])
-	c.r.clen = optStr(f[6])
-	c.r.lmod = optStr(f[7])
-	c.r.body = f[8].Str()
+	// an (ovl) case is replayed on its own
 	return c
 }
 
@@ -144,33 +180,67 @@ func (r *respSpec) header() http.Header {
 	return h
 }
 
-// scripted is the HTTPClient: it answers every request with the scripted response
-// and, like http.Client, reads the request body and sets Response.Request.
+// scripted is the HTTPClient: it answers a request with the scripted response (the one
+// routed to the request's path, else the current one) and, like http.Client, reads the
+// request body and sets Response.Request.
 type scripted struct {
-	r     *respSpec
-	calls int32
+	mu     sync.Mutex
+	cur    *respSpec
+	routes map[string]*respSpec
+	calls  map[string]int // requests seen, per URL path
+	total  int
+}
+
+func (s *scripted) set(r *respSpec) {
+	s.mu.Lock()
+	s.cur = r
+	s.mu.Unlock()
+}
+
+func (s *scripted) count() int {
+	s.mu.Lock()
+	defer s.mu.Unlock()
+	return s.total
+}
+
+func (s *scripted) countPath(p string) int {
+	s.mu.Lock()
+	defer s.mu.Unlock()
+	return s.calls[p]
 }
 
 func (s *scripted) Do(req *http.Request) (*http.Response, error) {
-	atomic.AddInt32(&s.calls, 1)
+	s.mu.Lock()
+	r := s.cur
+	if rr, ok := s.routes[req.URL.Path]; ok {
+		r = rr
+	}
+	if s.calls == nil {
+		s.calls = map[string]int{}
+	}
+	s.calls[req.URL.Path]++
+	s.total++
+	s.mu.Unlock()
+	if r.deliv == delivRealTransport && !r.terr {
+		return realDo(req, r)
+	}
 	if req.Body != nil {
 		io.Copy(io.Discard, req.Body)
 		req.Body.Close()
 	}
-	if s.r.terr {
+	if r.terr {
 		return nil, errors.New("scripted transport failure")
 	}
 	resp := &http.Response{
-		Status:        fmt.Sprintf("%d %s", s.r.status, statusText(s.r.status)),
-		StatusCode:    s.r.status,
-		Proto:         "HTTP/1.1",
-		ProtoMajor:    1,
-		ProtoMinor:    1,
-		Header:        s.r.header(),
-		Body:          io.NopCloser(strings.NewReader(s.r.body)),
-		ContentLength: int64(len(s.r.body)),
+		Status:     fmt.Sprintf("%d %s", r.status, statusText(r.status)),
+		StatusCode: r.status,
+		Proto:      "HTTP/1.1",
+		ProtoMajor: 1,
+		ProtoMinor: 1,
+		Header:     r.header(),
 	}
-	if s.r.reqset {
+	resp.Body, resp.ContentLength = deliver(r.body, r.deliv)
+	if r.reqset {
 		resp.Request = req
 	}
 	return resp, nil
@@ -362,24 +432,103 @@ func derived(r *respSpec) string {
 
 // ---- running the real client methods
 
-const endpoint = "http://dav.example.com/"
+const defaultEndpoint = "http://dav.example.com/"
 
-var (
-	theCalendar *ical.Calendar
-	theCard     vcard.Card
-)
+// clientSet: one value of each client type over one HTTPClient; a sequence of calls uses
+// ONE clientSet.
+type clientSet struct {
+	args *reqArgs
+	hc   *scripted
+	w    *webdav.Client
+	c    *caldav.Client
+	d    *carddav.Client
+}
 
-func init() {
-	cal, err := ical.NewDecoder(strings.NewReader(icalText)).Decode()
-	if err != nil {
+func newClientSet(endpoint string) *clientSet {
+	if endpoint == "" {
+		endpoint = defaultEndpoint
+	}
+	cs := &clientSet{hc: &scripted{}, args: newArgs()}
+	var err error
+	if cs.w, err = webdav.NewClient(cs.hc, endpoint); err != nil {
 		panic(err)
 	}
-	theCalendar = cal
-	card, err := vcard.NewDecoder(strings.NewReader(vcardText)).Decode()
-	if err != nil {
+	if cs.c, err = caldav.NewClient(cs.hc, endpoint); err != nil {
 		panic(err)
 	}
-	theCard = card
+	if cs.d, err = carddav.NewClient(cs.hc, endpoint); err != nil {
+		panic(err)
+	}
+	return cs
+}
+
+// The request values handed to the client methods belong to the client set (generator
+// audit, items 1 and 2): within a sequence the SAME values are passed to call after call,
+// and every call is checked for having left them as they were.
+type reqArgs struct {
+	calQuery    *caldav.CalendarQuery
+	calMultiGet *caldav.CalendarMultiGet
+	abQuery     *carddav.AddressBookQuery
+	abMultiGet  *carddav.AddressBookMultiGet
+	sync        *carddav.SyncQuery
+	moveOpts    *webdav.MoveOptions
+	copyOpts    *webdav.CopyOptions
+	calendar    *ical.Calendar
+	card        vcard.Card
+}
+
+// the calendar / card a PUT sends: decoded when first needed
+func (a *reqArgs) cal() *ical.Calendar {
+	if a.calendar == nil {
+		a.calendar, _ = ical.NewDecoder(strings.NewReader(icalText)).Decode()
+	}
+	return a.calendar
+}
+
+func (a *reqArgs) vc() vcard.Card {
+	if a.card == nil {
+		a.card, _ = vcard.NewDecoder(strings.NewReader(vcardText)).Decode()
+	}
+	return a.card
+}
+
+func newArgs() *reqArgs {
+	return &reqArgs{
+		calQuery: &caldav.CalendarQuery{
+			CompRequest: caldav.CalendarCompRequest{Name: "VCALENDAR", AllProps: true, AllComps: true,
+				Comps: []caldav.CalendarCompRequest{{Name: "VEVENT", Props: []string{"SUMMARY", "UID"}}}},
+			CompFilter: caldav.CompFilter{Name: "VCALENDAR", Comps: []caldav.CompFilter{{Name: "VEVENT"}}},
+		},
+		calMultiGet: &caldav.CalendarMultiGet{
+			CompRequest: caldav.CalendarCompRequest{Name: "VCALENDAR", AllProps: true, AllComps: true},
+			Paths:       []string{"/cal/me/work/1.ics", "/cal/me/work/2.ics"},
+		},
+		abQuery: &carddav.AddressBookQuery{
+			DataRequest: carddav.AddressDataRequest{Props: []string{"FN", "EMAIL"}},
+			PropFilters: []carddav.PropFilter{{Name: "FN", TextMatches: []carddav.TextMatch{{Text: "a"}}}},
+			Limit:       10,
+		},
+		abMultiGet: &carddav.AddressBookMultiGet{
+			DataRequest: carddav.AddressDataRequest{AllProp: true},
+			Paths:       []string{"/card/me/friends/1.vcf"},
+		},
+		sync:     &carddav.SyncQuery{DataRequest: carddav.AddressDataRequest{AllProp: true}, SyncToken: "http://example.com/ns/sync/1", Limit: 5},
+		moveOpts: &webdav.MoveOptions{NoOverwrite: true},
+		copyOpts: &webdav.CopyOptions{NoRecursive: true},
+	}
+}
+
+// snapshot renders every request value (deeply, by value) for comparison.
+func (a *reqArgs) snapshot() string {
+	var cal, card strings.Builder
+	if a.calendar != nil {
+		ical.NewEncoder(&cal).Encode(a.calendar)
+	}
+	if a.card != nil {
+		vcard.NewEncoder(&card).Encode(a.card)
+	}
+	return fmt.Sprintf("%+v|%+v|%+v|%+v|%+v|%+v|%+v|%s|%s", *a.calQuery, *a.calMultiGet, *a.abQuery, *a.abMultiGet,
+		*a.sync, *a.moveOpts, *a.copyOpts, cal.String(), card.String())
 }
 
 func paths(l ...string) string {
@@ -423,209 +572,207 @@ var methods = []string{
 	"GetAddressObject", "PutAddressObject", "SyncCollection",
 }
 
-// call runs one client method against the scripted HTTPClient and projects the result.
-func call(method, path string, hc webdav.HTTPClient) (out string) {
+// call runs one client method of the client set and projects the result.  keep, when not
+// nil, projects the returned value again later (generator audit, item 3: a result must not
+// change when the client is used again).
+func call(method, path string, cs *clientSet) (out string, keep func() string) {
 	defer func() {
 		if r := recover(); r != nil {
-			out = "(panic)"
+			out, keep = "(panic)", nil
 		}
 	}()
+	switch method { // the value is there before the snapshot is taken
+	case "PutCalendarObject":
+		cs.args.cal()
+	case "PutAddressObject":
+		cs.args.vc()
+	}
+	before := cs.args.snapshot()
+	out, keep = call1(method, path, cs)
+	if cs.args.snapshot() != before {
+		out, keep = "(argmod)", nil
+	}
+	return
+}
+
+func call1(method, path string, cs *clientSet) (out string, keep func() string) {
 	ctx := context.Background()
-	fail := func(err error) string { return projErr(err) }
+	fail := func(err error) (string, func() string) { return projErr(err), nil }
+	done := func(err error) (string, func() string) {
+		if err != nil {
+			return projErr(err), nil
+		}
+		return "(ok)", nil
+	}
+	one := func(p *string) (string, func() string) { return paths(*p), func() string { return paths(*p) } }
+	infos := func(l []webdav.FileInfo) (string, func() string) {
+		pr := func() string {
+			var ps []string
+			for i := range l {
+				ps = append(ps, l[i].Path)
+			}
+			return paths(ps...)
+		}
+		return pr(), pr
+	}
+	calObjs := func(l []caldav.CalendarObject, err error) (string, func() string) {
+		if err != nil {
+			return fail(err)
+		}
+		pr := func() string {
+			var ps []string
+			for i := range l {
+				ps = append(ps, l[i].Path)
+			}
+			return paths(ps...)
+		}
+		return pr(), pr
+	}
+	cardObjs := func(l []carddav.AddressObject, err error) (string, func() string) {
+		if err != nil {
+			return fail(err)
+		}
+		pr := func() string {
+			var ps []string
+			for i := range l {
+				ps = append(ps, l[i].Path)
+			}
+			return paths(ps...)
+		}
+		return pr(), pr
+	}
 	switch method {
-	case "FindCurrentUserPrincipal", "Stat", "Open", "ReadDir", "Create", "RemoveAll", "Mkdir", "Copy", "Move":
-		c, err := webdav.NewClient(hc, endpoint)
+	case "FindCurrentUserPrincipal":
+		p, err := cs.w.FindCurrentUserPrincipal(ctx)
 		if err != nil {
-			panic(err)
+			return fail(err)
 		}
-		switch method {
-		case "FindCurrentUserPrincipal":
-			p, err := c.FindCurrentUserPrincipal(ctx)
-			if err != nil {
-				return fail(err)
-			}
-			return paths(p)
-		case "Stat":
-			fi, err := c.Stat(ctx, path)
-			if err != nil {
-				return fail(err)
-			}
-			return paths(fi.Path)
-		case "Open":
-			rc, err := c.Open(ctx, path)
-			if err != nil {
-				return fail(err)
-			}
-			io.Copy(io.Discard, rc)
-			rc.Close()
-			return "(ok)"
-		case "ReadDir":
-			l, err := c.ReadDir(ctx, path, false)
-			if err != nil {
-				return fail(err)
-			}
-			var ps []string
-			for _, fi := range l {
-				ps = append(ps, fi.Path)
-			}
-			return paths(ps...)
-		case "Create":
-			w, err := c.Create(ctx, path)
-			if err != nil {
-				return fail(err)
-			}
-			w.Write([]byte("some content"))
-			if err := w.Close(); err != nil {
-				return fail(err)
-			}
-			return "(ok)"
-		case "RemoveAll":
-			if err := c.RemoveAll(ctx, path); err != nil {
-				return fail(err)
-			}
-			return "(ok)"
-		case "Mkdir":
-			if err := c.Mkdir(ctx, path); err != nil {
-				return fail(err)
-			}
-			return "(ok)"
-		case "Copy":
-			if err := c.Copy(ctx, path, "/dest/of/copy", nil); err != nil {
-				return fail(err)
-			}
-			return "(ok)"
-		case "Move":
-			if err := c.Move(ctx, path, "/dest/of/move", &webdav.MoveOptions{NoOverwrite: true}); err != nil {
-				return fail(err)
-			}
-			return "(ok)"
-		}
-	case "FindCalendarHomeSet", "FindCalendars", "QueryCalendar", "MultiGetCalendar", "GetCalendarObject", "PutCalendarObject":
-		c, err := caldav.NewClient(hc, endpoint)
+		return one(&p)
+	case "Stat":
+		fi, err := cs.w.Stat(ctx, path)
 		if err != nil {
-			panic(err)
+			return fail(err)
 		}
-		objs := func(l []caldav.CalendarObject, err error) string {
-			if err != nil {
-				return fail(err)
-			}
-			var ps []string
-			for _, o := range l {
-				ps = append(ps, o.Path)
-			}
-			return paths(ps...)
-		}
-		switch method {
-		case "FindCalendarHomeSet":
-			p, err := c.FindCalendarHomeSet(ctx, path)
-			if err != nil {
-				return fail(err)
-			}
-			return paths(p)
-		case "FindCalendars":
-			l, err := c.FindCalendars(ctx, path)
-			if err != nil {
-				return fail(err)
-			}
-			var ps []string
-			for _, o := range l {
-				ps = append(ps, o.Path)
-			}
-			return paths(ps...)
-		case "QueryCalendar":
-			return objs(c.QueryCalendar(ctx, path, &caldav.CalendarQuery{
-				CompRequest: caldav.CalendarCompRequest{Name: "VCALENDAR", AllProps: true, AllComps: true},
-				CompFilter:  caldav.CompFilter{Name: "VCALENDAR"},
-			}))
-		case "MultiGetCalendar":
-			return objs(c.MultiGetCalendar(ctx, path, &caldav.CalendarMultiGet{
-				CompRequest: caldav.CalendarCompRequest{Name: "VCALENDAR", AllProps: true, AllComps: true},
-				Paths:       []string{path + "1.ics"},
-			}))
-		case "GetCalendarObject":
-			o, err := c.GetCalendarObject(ctx, path)
-			if err != nil {
-				return fail(err)
-			}
-			return paths(o.Path)
-		case "PutCalendarObject":
-			o, err := c.PutCalendarObject(ctx, path, theCalendar)
-			if err != nil {
-				return fail(err)
-			}
-			return paths(o.Path)
-		}
-	default:
-		c, err := carddav.NewClient(hc, endpoint)
+		return one(&fi.Path)
+	case "Open":
+		rc, err := cs.w.Open(ctx, path)
 		if err != nil {
-			panic(err)
+			return fail(err)
 		}
-		objs := func(l []carddav.AddressObject, err error) string {
-			if err != nil {
-				return fail(err)
-			}
+		io.Copy(io.Discard, rc)
+		rc.Close()
+		return "(ok)", nil
+	case "ReadDir":
+		l, err := cs.w.ReadDir(ctx, path, false)
+		if err != nil {
+			return fail(err)
+		}
+		return infos(l)
+	case "Create":
+		w, err := cs.w.Create(ctx, path)
+		if err != nil {
+			return fail(err)
+		}
+		w.Write([]byte("some content"))
+		return done(w.Close())
+	case "RemoveAll":
+		return done(cs.w.RemoveAll(ctx, path))
+	case "Mkdir":
+		return done(cs.w.Mkdir(ctx, path))
+	case "Copy":
+		return done(cs.w.Copy(ctx, path, "/dest/of/copy", cs.args.copyOpts))
+	case "Move":
+		return done(cs.w.Move(ctx, path, "/dest/of/move", cs.args.moveOpts))
+	case "FindCalendarHomeSet":
+		p, err := cs.c.FindCalendarHomeSet(ctx, path)
+		if err != nil {
+			return fail(err)
+		}
+		return one(&p)
+	case "FindCalendars":
+		l, err := cs.c.FindCalendars(ctx, path)
+		if err != nil {
+			return fail(err)
+		}
+		pr := func() string {
 			var ps []string
-			for _, o := range l {
-				ps = append(ps, o.Path)
+			for i := range l {
+				ps = append(ps, l[i].Path)
 			}
 			return paths(ps...)
 		}
-		switch method {
-		case "HasSupport":
-			if err := c.HasSupport(ctx); err != nil {
-				return fail(err)
-			}
-			return "(ok)"
-		case "FindAddressBookHomeSet":
-			p, err := c.FindAddressBookHomeSet(ctx, path)
-			if err != nil {
-				return fail(err)
-			}
-			return paths(p)
-		case "FindAddressBooks":
-			l, err := c.FindAddressBooks(ctx, path)
-			if err != nil {
-				return fail(err)
-			}
+		return pr(), pr
+	case "QueryCalendar":
+		return calObjs(cs.c.QueryCalendar(ctx, path, cs.args.calQuery))
+	case "MultiGetCalendar":
+		return calObjs(cs.c.MultiGetCalendar(ctx, path, cs.args.calMultiGet))
+	case "GetCalendarObject":
+		o, err := cs.c.GetCalendarObject(ctx, path)
+		if err != nil {
+			return fail(err)
+		}
+		return one(&o.Path)
+	case "PutCalendarObject":
+		o, err := cs.c.PutCalendarObject(ctx, path, cs.args.cal())
+		if err != nil {
+			return fail(err)
+		}
+		return one(&o.Path)
+	case "HasSupport":
+		return done(cs.d.HasSupport(ctx))
+	case "FindAddressBookHomeSet":
+		p, err := cs.d.FindAddressBookHomeSet(ctx, path)
+		if err != nil {
+			return fail(err)
+		}
+		return one(&p)
+	case "FindAddressBooks":
+		l, err := cs.d.FindAddressBooks(ctx, path)
+		if err != nil {
+			return fail(err)
+		}
+		pr := func() string {
 			var ps []string
-			for _, o := range l {
-				ps = append(ps, o.Path)
+			for i := range l {
+				ps = append(ps, l[i].Path)
 			}
 			return paths(ps...)
-		case "QueryAddressBook":
-			return objs(c.QueryAddressBook(ctx, path, &carddav.AddressBookQuery{
-				DataRequest: carddav.AddressDataRequest{AllProp: true},
-			}))
-		case "MultiGetAddressBook":
-			return objs(c.MultiGetAddressBook(ctx, path, &carddav.AddressBookMultiGet{
-				DataRequest: carddav.AddressDataRequest{AllProp: true},
-			}))
-		case "GetAddressObject":
-			o, err := c.GetAddressObject(ctx, path)
-			if err != nil {
-				return fail(err)
-			}
-			return paths(o.Path)
-		case "PutAddressObject":
-			o, err := c.PutAddressObject(ctx, path, theCard)
-			if err != nil {
-				return fail(err)
-			}
-			return paths(o.Path)
-		case "SyncCollection":
-			r, err := c.SyncCollection(ctx, path, &carddav.SyncQuery{SyncToken: "http://example.com/ns/sync/1"})
-			if err != nil {
-				return fail(err)
-			}
+		}
+		return pr(), pr
+	case "QueryAddressBook":
+		return cardObjs(cs.d.QueryAddressBook(ctx, path, cs.args.abQuery))
+	case "MultiGetAddressBook":
+		return cardObjs(cs.d.MultiGetAddressBook(ctx, path, cs.args.abMultiGet))
+	case "GetAddressObject":
+		o, err := cs.d.GetAddressObject(ctx, path)
+		if err != nil {
+			return fail(err)
+		}
+		return one(&o.Path)
+	case "PutAddressObject":
+		o, err := cs.d.PutAddressObject(ctx, path, cs.args.vc())
+		if err != nil {
+			return fail(err)
+		}
+		return one(&o.Path)
+	case "SyncCollection":
+		r, err := cs.d.SyncCollection(ctx, path, cs.args.sync)
+		if err != nil {
+			return fail(err)
+		}
+		pr := func() string {
 			var upd []string
-			for _, o := range r.Updated {
-				upd = append(upd, o.Path)
+			for i := range r.Updated {
+				upd = append(upd, r.Updated[i].Path)
 			}
 			return hx.L("sync", strs(r.Deleted), strs(upd))
 		}
+		return pr(), pr
 	}
 	panic("harness: unknown method " + method)
 }
+
+var isChild bool
 
 var watchdog = 5 * time.Second
 
@@ -636,20 +783,65 @@ var hangs int32
 
 const maxHangs = 12
 
-func observe(c caseIn) string {
-	hc := &scripted{r: &c.r}
-	done := make(chan string, 1)
-	go func() { done <- call(c.method, c.path, hc) }()
-	var out string
-	t := time.NewTimer(watchdog)
-	select {
-	case out = <-done:
-	case <-t.C:
-		out = "(hang)"
-		atomic.AddInt32(&hangs, 1)
+// guarded runs one call under the watchdog; it reports the outcome and the keeper.
+func guarded(method, path string, cs *clientSet) (string, func() string) {
+	type res struct {
+		out  string
+		keep func() string
 	}
-	t.Stop()
-	return hx.L("o", hx.I(int64(atomic.LoadInt32(&hc.calls))), out)
+	done := make(chan res, 1)
+	go func() {
+		out, keep := call(method, path, cs)
+		done <- res{out, keep}
+	}()
+	t := time.NewTimer(watchdog)
+	defer t.Stop()
+	select {
+	case r := <-done:
+		return r.out, r.keep
+	case <-t.C:
+		atomic.AddInt32(&hangs, 1)
+		return "(hang)", nil
+	}
+}
+
+// observe runs the calls of the history and then the case's own call, all on ONE client
+// set; results of the earlier calls are kept and projected again at the end.
+func observe(c caseIn) string {
+	cs := newClientSet(c.endpoint)
+	type kept struct {
+		was  string
+		keep func() string
+	}
+	var keeps []kept
+	for i := range c.hist {
+		st := &c.hist[i]
+		cs.hc.set(&st.r)
+		out, keep := guarded(st.method, st.path, cs)
+		if keep != nil {
+			keeps = append(keeps, kept{out, keep})
+		}
+		if out == "(hang)" {
+			break
+		}
+	}
+	before := cs.hc.count()
+	cs.hc.set(&c.r)
+	out, _ := guarded(c.method, c.path, cs)
+	n := cs.hc.count() - before
+	for _, k := range keeps {
+		if again := func() (s string) {
+			defer func() {
+				if recover() != nil {
+					s = "(panic)"
+				}
+			}()
+			return k.keep()
+		}(); again != k.was {
+			out = "(aliased)"
+		}
+	}
+	return hx.L("o", hx.I(int64(n)), out)
 }
 
 // pairCase exercises the variadic loop of Response.DecodeProp directly (no public client
@@ -698,13 +890,63 @@ func exec(c caseIn) string {
 	if c.method == "DecodePropPair" {
 		return pairCase(c.r.body)
 	}
-	return inputSx(c) + " " + derived(&c.r) + " " + observe(c)
+	if c.method == "OVERLAP" {
+		return overlap(c.hist)
+	}
+	in := inputSx(c)
+	if c.method == "Create" && len(c.hist) == 0 && !isChild {
+		if obs := createChild.observeInChild(in); obs != "" {
+			return in + " " + derived(&c.r) + " " + obs
+		}
+	}
+	return in + " " + derived(&c.r) + " " + observe(c)
+}
+
+// overlap runs the given calls at the same time on ONE client set (generator audit, item 7),
+// each with its own answer (routed by the request path), and reports each as a case of its
+// own: overlapping use must not change any outcome.
+func overlap(calls []caseIn) string {
+	cs := newClientSet("")
+	cs.args.cal() // all request values exist before the overlapping calls start
+	cs.args.vc()
+	cs.hc.routes = map[string]*respSpec{}
+	cs.hc.cur = &respSpec{status: 599}
+	for i := range calls {
+		cs.hc.routes[calls[i].path] = &calls[i].r
+	}
+	outs := make([]string, len(calls))
+	var wg sync.WaitGroup
+	start := make(chan struct{})
+	for i := range calls {
+		wg.Add(1)
+		go func(i int) {
+			defer wg.Done()
+			<-start
+			outs[i], _ = guarded(calls[i].method, calls[i].path, cs)
+		}(i)
+	}
+	close(start)
+	wg.Wait()
+	var lines []string
+	for i := range calls {
+		c := calls[i]
+		c.ovl = true
+		lines = append(lines, inputSx(c)+" "+derived(&c.r)+" "+hx.L("o", hx.I(int64(cs.hc.countPath(c.path))), outs[i]))
+	}
+	return strings.Join(lines, "\n")
 }
 
 func main() {
 	out := flag.String("out", "", "output file")
 	replay := flag.String("replay", "", "file of case lines to re-run (inputs are re-executed)")
+	child := flag.Bool("child", false, "serve cases from stdin (used for the Create cases)")
 	flag.Parse()
+	if *child {
+		isChild = true
+		childMain()
+		return
+	}
+	defer createChild.stop()
 	sink := hx.NewSink(*out)
 	defer sink.Close()
 
